@@ -59,6 +59,10 @@ const STEPS: &[(&str, &str)] = &[
     ("{ while :; do :; done; } & kill -s KILL $!; wait $!; echo st=$?", "parent-kills-child"),
     ("kill -s TERM $$; echo unreachable", "self-kill"),
     ("exit 7", "exit"),
+    // stopped children
+    ("{ { while :; do :; done; } & kill -s STOP $!; kill -s KILL $!; wait $!; echo st=$?; } | cat", "stopped-child-killed-holding-pipe"),
+    ("trap - TERM; { while :; do :; done; } & kill -s STOP $!; kill -s CONT $!; kill -s TERM $!; wait $!; echo st=$?", "stop-cont-term"),
+    ("trap - TERM; { while :; do :; done; } & kill -s STOP $!; kill -s TERM $!; kill -s CONT $!; wait $!; echo st=$?", "term-while-stopped-then-cont"),
     // symbolic links (fixture: l -> e, ld -> d, dangling -> nowhere)
     ("cat <l", "symlink-read"),
     ("echo S >l; cat <e", "symlink-write"),
